@@ -79,7 +79,7 @@ theorem step_inv (a : ArraySized) (op : Spec.SSeq.Op Elem) (m : Mem) (h : a.Inv)
     (hw : OpWF a.dataLen op) : (a.step op m).2.1.Inv := (step_refines a op m h hw).2.2.1
 
 theorem step_nofault (a : ArraySized) (op : Spec.SSeq.Op Elem) (m : Mem) (h : a.Inv)
-    (hw : OpWF a.dataLen op) : (a.step op m).2.2.fault = m.fault := (step_refines a op m h hw).2.2.2.2.2.1.2
+    (hw : OpWF a.dataLen op) : (a.step op m).2.2.fault = m.fault := (step_refines a op m h hw).2.2.2.2.2.1.2.1
 
 /-- the array owns its two blocks before and after every call of the core API -/
 theorem step_ledger (a : ArraySized) (op : Spec.SSeq.Op Elem) (m : Mem) (h : a.Inv)
@@ -92,6 +92,10 @@ theorem step_atomic (a : ArraySized) (op : Spec.SSeq.Op Elem) (m : Mem) (h : a.I
     m.alloc.1 = false := by
   obtain ⟨_, _, _, _, _, h6, h7, h8, _⟩ := step_refines a op m h hw
   have hr : a.refusal op m = some .errAlloc := by unfold refusal; rw [hst]
-  exact ⟨h7 (by rw [hr]; simp), h6.1, h6.2, h8 hr⟩
+  exact ⟨h7 (by rw [hr]; simp), h6.1, h6.2.1, h8 hr⟩
+
+/-- every allocation and release of a call goes through the configured triple -/
+theorem step_libc (a : ArraySized) (op : Spec.SSeq.Op Elem) (m : Mem) (h : a.Inv)
+    (hw : OpWF a.dataLen op) : (a.step op m).2.2.libc = m.libc := (step_refines a op m h hw).2.2.2.2.2.1.2.2
 
 end CC.ArraySized
